@@ -766,3 +766,66 @@ func c10StaleCompletion(c *ev.Ctx) {
 		runtime.KeepAlive(c2)
 	}
 }
+
+// (10) the whole tag space, by history: every call that fails its wait on a
+// still usable connection retires its tag (the server may yet answer it). After
+// 65534 such failures there is no tag left: further calls fail - they do not go
+// out under NOTAG, under a tag that is retired, or under one that is in flight.
+func c10TagSpace(c *ev.Ctx) {
+	if !c.Mine(7) {
+		return
+	}
+	c.Begin("C10 tag space used up by retired tags")
+	cc := c10Setup(c, 1, nil)
+	if cc == nil {
+		return
+	}
+	auto := fakesrv.Auto(0, 7)
+	cc.fs.Handler = func(s *fakesrv.Server, rq *fakesrv.Req) {
+		if rq.Err == nil && rq.Msg.Type == wire.Tgetattr {
+			s.Reply(wire.Rreadlink, rq.Msg.Tag, "not what was asked") // a reply the client cannot accept; the connection stays usable
+			return
+		}
+		auto(s, rq)
+	}
+	const total = 65534 + 40
+	done := make(chan struct{})
+	oks, sent0 := 0, cc.fs.NReqs()
+	var tail []string
+	go func() {
+		defer close(done)
+		for i := 0; i < total; i++ {
+			s := cc.do(0, c10call{kind: 'G'})
+			if !strings.HasPrefix(s, "error:") {
+				oks++
+			}
+			if i >= total-3 {
+				tail = append(tail, s)
+			}
+		}
+	}()
+	if o, d := quiesce.Await(done, 8*wd); o != quiesce.CondMet {
+		hang(c, o, d, "C10:tag-space:call-hangs", nil)
+		cc.fs.Shutdown()
+		return
+	}
+	sent := cc.fs.NReqs() - sent0
+	det := map[string]any{"calls": total, "requests_seen_by_the_server": sent, "last_results": tail}
+	seen := map[string]bool{}
+	for _, m := range cc.fs.Monitor() {
+		if w := firstWord(m); strings.HasPrefix(w, "tag:") && !seen[w] {
+			seen[w] = true
+			c.Violation("C10:tag-space:"+w, map[string]any{"monitor": m, "calls": total})
+		}
+	}
+	if oks > 0 {
+		c.Violation("C10:tag-space:call-succeeds-on-a-reply-of-the-wrong-type", det)
+	}
+	if sent > 65534 {
+		c.Violation("C10:tag-space:more-requests-sent-than-there-are-tags-to-retire", det)
+	}
+	c.Case("tag-space", sent >= 65000)
+	c.Count("tag_space_calls", int64(total))
+	cc.fs.Shutdown()
+	runtime.KeepAlive(cc)
+}
